@@ -181,7 +181,7 @@ class Ctx:
 
         with cf.ThreadPoolExecutor(max_workers=len(parts)) as ex:
             tails = list(ex.map(one, parts))
-        if len(parts) > 1:
+        if parts[0][1] != out:
             with open(out, "w") as f:
                 for _, op in parts:
                     if os.path.exists(op):
